@@ -96,6 +96,8 @@ where
         .sharded_shuffle(attributed_values_padded)
         .instrument(info_span!("shuffle_attribution_outputs"))
         .await?;
+    #[cfg(feature = "ipa-verif")]
+    crate::verif_obs::emit("hybrid:agg_shuffled", ctx.role() as u64, u64::from(u32::from(ctx.shard_id())), attributions.len() as u64);
 
     // Revealing the breakdowns doesn't do any multiplies, so won't make it as far as
     // doing a proof, but we need the validator to obtain an upgraded malicious context.
